@@ -254,3 +254,25 @@ Theorem C04_code_tie_BuyStorage :
                ref_resolves creator_ok ref_is_creator polr refc ok_charge gauge_acc_ok ok_fund pol_acc_ok ok_pol ok_ref ok_fees.
 Proof. exact gen_BuyStorage_spec. Qed.
 Print Assumptions C04_code_tie_BuyStorage.
+
+From JK Require Import Proofs.GoTieBuyModel.
+
+(* ... and the model's BuyStorage step follows that closed form on the reads taken from its own state, with the answers
+   its bank gives to the four transfers for the amounts the model computes: same refusals, same panics, success
+   exactly when every transfer is answered (the two hour counts are assumed to fit int64: they are a duration in
+   nanoseconds divided by 3.6e12) *)
+Theorem C04_code_tie_model_buy_storage_follows :
+  forall e m s fa acc_exists,
+    0 < b_days m -> b_for m = Some fa ->
+    in_int64 (base_hours m) = true ->
+    (forall pi, the_plan s fa = Some pi -> in_int64 (prorated_hours e pi) = true) ->
+    let '(okc, okf, okp, okr) := oracles e m s in
+    let pl := the_plan s fa in
+    buy_storage e m s
+    = verdict s (buy_spec true (b_days m) (b_bytes m) (negb (b_ujkl m)) true acc_exists (GoTieBuyModel.is_some pl)
+                   (match pl with Some pi => p_used pi | None => 0 end) (match pl with Some pi => p_avail pi | None => 0 end)
+                   (match pl with Some pi => p_end pi | None => 0 end) (e_now e) (e_ppt e) (e_jkl e)
+                   (ref_resolves m) true (ref_is_creator m) (e_pol e) (e_refc e) okc true okf true okp okr okr)
+                (buy_storage e m s).
+Proof. exact buy_storage_follows_the_closed_form. Qed.
+Print Assumptions C04_code_tie_model_buy_storage_follows.
